@@ -687,6 +687,9 @@ class Interp:
             if isinstance(obj, A.Arr):
                 A.setitem(obj, key, rhs, aug=op)
                 return
+            if isinstance(obj, Ref) and obj.kind == "df":
+                from .pandas_model import df_aug_assign
+                return df_aug_assign(self, obj, key, op, rhs)
             cur_v = self.getitem(obj, key)
             if isinstance(cur_v, A.Arr):
                 A.inplace(cur_v, op, rhs)
